@@ -10,6 +10,7 @@ import (
 	"bytes"
 	"fmt"
 	"math/rand"
+	"net/http"
 	"net/url"
 	"strings"
 	"time"
@@ -43,6 +44,33 @@ func vidOf(uri string) string {
 func runCase(res *vkit.Result, c Case) {
 	tgt := targets[c.SSL]
 	tgt.Reset()
+	// the target keeps connections open but answers in different shapes: fixed length, empty,
+	// chunked (flushed in two parts), long without a declared length, 204, 404
+	tgt.Respond = func(rec *vkit.ReqRec, w http.ResponseWriter, r *http.Request) {
+		switch rec.Seq % 6 {
+		case 0:
+			w.WriteHeader(200)
+			_, _ = w.Write([]byte("ok"))
+		case 1:
+			w.Header().Set("Content-Length", "0")
+			w.WriteHeader(200)
+		case 2:
+			w.WriteHeader(200)
+			_, _ = w.Write([]byte("first part "))
+			if f, ok := w.(http.Flusher); ok {
+				f.Flush()
+			}
+			_, _ = w.Write([]byte("second part"))
+		case 3:
+			w.WriteHeader(200)
+			_, _ = w.Write([]byte(strings.Repeat("long body without a declared length ", 200)))
+		case 4:
+			w.WriteHeader(204)
+		default:
+			w.WriteHeader(404)
+			_, _ = w.Write([]byte("not found"))
+		}
+	}
 	data := c.File.Render()
 	c.Text = fmt.Sprintf("%q", data)
 	if len(c.Text) > 2500 {
@@ -256,7 +284,7 @@ func seeds() []Case {
 
 func main() {
 	vkit.Fs()
-	res := vkit.NewResult("pools decoded from config maps: ammo in uri/uripost/raw/http-json (1–6 entries, unique ?vid markers, header sets incl. Host) × `headers` option lists colliding with ammo headers in the same and in different letter case (incl. Host) × gun {http, connect} × ssl × disable-keep-alives × 1–8 instances × 1–2 passes, fired at an in-process recording HTTP(S) target that also serves CONNECT tunnels; distinct = distinct (file, option list, gun settings); non-trivial = ≥ 2 requests received")
+	res := vkit.NewResult("pools decoded from config maps: ammo in uri/uripost/raw/http-json (1–6 entries, unique ?vid markers, header sets incl. Host) × `headers` option lists colliding with ammo headers in the same and in different letter case (incl. Host) × gun {http, connect} × ssl × disable-keep-alives × 1–8 instances × 1–2 passes, fired at an in-process recording HTTP(S) target that also serves CONNECT tunnels and answers in six shapes (fixed length, empty, chunked, long without declared length, 204, 404); distinct = distinct (file, option list, gun settings); non-trivial = ≥ 2 requests received")
 	var err error
 	for _, tls := range []bool{false, true} {
 		targets[tls], err = vkit.NewHTTPTarget(tls)
